@@ -16,3 +16,8 @@ pub fn take() -> Vec<String> {
 pub fn len() -> usize {
     TRACE.lock().unwrap().len()
 }
+
+pub fn snapshot_from(start: usize) -> Vec<String> {
+    let t = TRACE.lock().unwrap();
+    t.iter().skip(start).cloned().collect()
+}
